@@ -13,7 +13,7 @@ check("C08", "exploration", "runtime differential monitor: idr tree vs standard-
       "Held on every generated document (quick 1.2e4, thorough 6e5): JSON trees convert back to a value deep-equal to encoding/json's decoding "
       "(incl. empty keys/containers, escapes, numeric spellings) and `copy` reproduces every record end-to-end through Read; XML trees equal a mirror "
       "DOM built from the standard decoder's tokens in element order, names, prefixes, URIs, attributes and character data.",
-      "Trusted: encoding/json, encoding/xml. No duplicate JSON keys; one prefix per namespace URI.",
+      "Trusted: encoding/json, encoding/xml. No duplicate JSON keys. Where two prefixes are bound to one namespace URI the generator writes the innermost-declared one (the standard decoder reports URIs, not lexical prefixes).",
       "DESIGN.md section 3 C08")
 
 HOOK_COMMITS.append("a527d01")
@@ -31,15 +31,15 @@ check("C12", "exploration", "runtime invariant monitor: abstract tree model in l
       "Harness owns its nodes via the public idr API. The race detector sees only interleavings that occurred.",
       "DESIGN.md section 3 C12")
 
-check("C09", "exploration", "runtime self-differential monitor: transcript under bytes.Reader vs 8 chunked delivery schedules of the same bytes",
+check("C09", "exploration", "runtime self-differential monitor: transcript under bytes.Reader vs 9 chunked delivery schedules of the same bytes",
       "Held on every (input, schedule) pair (quick 1.1e4, thorough 5e5) over all seven formats, three encodings, BOM/CRLF/terminator variants, "
       "well-formed and mutated inputs, multi-line records and records straddling 4 KiB / 8 KiB / 64 KiB buffers: byte-identical results, errors and checksums.",
       "Chunk reader obeys the io.Reader contract. json/xml 'rough' error line numbers masked, nothing else.",
       "DESIGN.md section 3 C09")
 
-check("C16", "fault_enumeration", "fault injection through the caller's io.Reader at every byte offset x 3 fault kinds, trace monitor on the Read history",
-      "For every generated input (quick 42, thorough 1050 inputs of all formats) EVERY byte offset is a fault point with persistent, transient and "
-      "data-with-error faults: a non-EOF fatal error surfaces within R+2 Reads, is sticky, and earlier results equal the fault-free run. "
+check("C16", "fault_enumeration", "fault injection through the caller's io.Reader at every byte offset x 4 fault kinds, trace monitor on the Read history",
+      "For every generated input (quick 42, thorough 1050 inputs of all formats) EVERY byte offset is a fault point with persistent, transient, "
+      "data-with-error and transient-data-with-error faults: a non-EOF fatal error surfaces within R+2 Reads, is sticky, and earlier results equal the fault-free run. "
       "One recorded known finding (old fixed-length by_header_footer, partial header line).",
       "Faults are errors.New values; a fault the library never reads up to is not counted.",
       "DESIGN.md section 3 C16")
@@ -51,7 +51,7 @@ check("C18", "exploration", "runtime self-differential monitor: (bytes, declared
       "DESIGN.md section 3 C18")
 
 check("C17", "exploration", "runtime retention monitor: reachable-node count sampled at delivered records of lazily generated streams",
-      "Held on every sampled record of 56 streams (7 formats x separators x pass/filter/failing/rich; quick 5e3, thorough 2e5 records each): tree size "
+      "Held on every sampled record of 96 streams (7 formats x separators x pass/filter/failing/rich, respelled filters, runs of non-targets, hierarchical targets; quick 5e3, thorough 2e5 records each): tree size "
       "in the second half never exceeds the first quarter's maximum. One recorded known finding (xml inter-record text nodes).",
       "Retention = reachable idr nodes (the statement's metric). Records of a stream share one shape.",
       "DESIGN.md section 3 C17")
@@ -64,7 +64,7 @@ check("C10", "exploration", "runtime metamorphic monitor over per-position trans
 
 check("C15", "exploration", "runtime self-differential monitor over histories and processes + checksum pair oracle",
       "Held on every (schema, input, externals) (quick 840, thorough 2.8e4 cases): identical transcripts on repeat, with a re-created Schema, after 5-25 "
-      "other transforms in the same process and in a fresh process with another GOMAXPROCS; checksums equal for equal raw records and different for "
+      "other transforms in the same process, on a Schema object that first served other externals, and in a fresh process with another GOMAXPROCS (incl. bulk javascript_with_context inputs); checksums equal for equal raw records and different for "
       "records differing in one leaf value. Two recorded known findings (xml attributes not entering the checksum).",
       "now/uuid/random scripts excluded. XML mixed-content text is reported, not decided.",
       "DESIGN.md section 3 C15")
@@ -118,9 +118,10 @@ check("C20", "exploration", "runtime isolation monitor: enumerating probe script
       "Scripts are IIFEs without globals. _node's expected value is idr.JSONify2 of the live node at observation time.",
       "DESIGN.md section 3 C20")
 
-check("C14", "exploration", "Go race detector + cross-talk monitor (concurrent transcripts vs serial twins) with yields injected at real suspension points",
+check("C14", "exploration", "Go race detector + cross-talk monitor (concurrent, interleaved and cold-start transcripts vs serial twins; live node-ID ledger) with yields injected at real suspension points",
       "Held on every concurrent job (quick 1.5e4, thorough ~4e5) of arenas with shared Schema objects of all formats (incl. javascript, templates, target filters): "
-      "G in {2,8,32,128} goroutines x GOMAXPROCS in {1,2,4,16}, zero race reports, every transcript byte-identical to its serial twin.",
+      "G in {2,8,32,128} goroutines x GOMAXPROCS in {1,2,4,16}, zero race reports, every transcript byte-identical to its serial twin; also for 2-4 live transforms "
+      "advanced in turns in one goroutine and for 2-8 goroutines that are the first users of a freshly loaded schema; no node ID carried by two live nodes.",
       "One Transform per goroutine. The race detector sees only interleavings that occurred (yields injected and goroutine-stamp windows reported).",
       "DESIGN.md section 3 C14")
 
